@@ -2,12 +2,13 @@ use std::borrow::Cow;
 
 use bstr::{ByteSlice, ByteVec};
 
-/// The final component of the path, if it is a normal file.
+/// The final component of the path, i.e. everything after the last `/`.
 ///
-/// If the path terminates in `.`, `..`, or consists solely of a root of
-/// prefix, file_name will return None.
+/// This is what a glob's regex sees as the last component, so a path such
+/// as `foo.` has the file name `foo.` (and the extension `.`). If the path
+/// is empty, file_name will return None.
 pub(crate) fn file_name<'a>(path: &Cow<'a, [u8]>) -> Option<Cow<'a, [u8]>> {
-    if path.last_byte().map_or(true, |b| b == b'.') {
+    if path.is_empty() {
         return None;
     }
     let last_slash = path.rfind_byte(b'/').map(|i| i + 1).unwrap_or(0);
